@@ -25,8 +25,8 @@ RULE = ("A corpus of N scripts is generated once from VERIF_SEED with Hypothesis
         "batched item removal and re-run. Non-trivial = script with >=2 symbols in one argument or an include over >=2 modes. "
         "Distinct = SHA-1 of the script text(s). evaluations = N scripts x K interpreters.")
 ASSUMPTIONS = ["hash randomisation is the only configuration varied; each child is a fresh interpreter"]
-BUDGET = {"quick": (400, 1), "thorough": (4000, 4)}
-KSEEDS = {"quick": 4, "thorough": 32}
+BUDGET = {"quick": (600, 1), "thorough": (4000, 4)}
+KSEEDS = {"quick": 8, "thorough": 32}
 
 
 def _cfgs():
@@ -53,9 +53,26 @@ def entry(draw):
         regs = sorted({p.text for it in sc.items if isinstance(it, A.Stmt) and it.args for v in it.args.pos if isinstance(v, A.Flat)
                        for p in A.walk_prims(v) if isinstance(p, A.Reg)})
         pool = [A.Param(n) for n in names] if names else [A.Reg(r) for r in regs]
-        if len(pool) == 1:
-            pool = pool + ([A.Param(pool[0].name + "b")] if isinstance(pool[0], A.Param) else [A.Reg("q%d" % (int(pool[0].text[1:]) + 1))])
-        if len(pool) >= 2:
+        if pool:
+            # top the pool up to four distinct symbols of the same kind
+            k_ = 0
+            while len(pool) < 4 and k_ < 40:
+                k_ += 1
+                cand = A.Param(pool[0].name + "b" * k_) if isinstance(pool[0], A.Param) else A.Reg("q%d" % (int(pool[0].text[1:]) + 3 * k_))
+                key = cand.name if isinstance(cand, A.Param) else int(cand.text[1:])
+                if key not in [(x.name if isinstance(x, A.Param) else int(x.text[1:])) for x in pool]:
+                    pool.append(cand)
+        if len(pool) >= 3 and draw(st.integers(0, 3)) > 0:
+            # several symbols in a nested expression: (s0 + s1)*s2 - s3, s0*s1 + s2*s3 ...
+            sy = [A.Operand("", x) for x in pool[:4]]
+            last = sy[3] if len(sy) > 3 else sy[0]
+            nested = draw(st.sampled_from([
+                A.Flat([A.Operand("", A.Paren(A.Flat([sy[0], sy[1]], ["+"]))), sy[2], last], ["*", "-"]),
+                A.Flat([sy[0], sy[1], sy[2], last], ["*", "+", "*"]),
+                A.Flat([last, A.Operand("", A.Paren(A.Flat([sy[2], sy[0]], ["-"]))), sy[1]], ["*", "+"])]))
+            kw = [["k", A.Flat([sy[2], A.Operand("", A.Paren(A.Flat([sy[1], sy[0]], ["-"])))], ["*"])]] if draw(st.booleans()) else []
+            sc.items.append(A.Stmt("Nested", A.Args([nested], kw, False), [S.F1(A.Num("int", "0"))], "", ""))
+        elif len(pool) >= 2:
             ops = [A.Operand("", pool[0]), A.Operand("", pool[1])] + ([A.Operand("", pool[2])] if len(pool) > 2 else [])
             e = A.Flat(ops, [draw(st.sampled_from(["*", "+", "-"])) for _ in ops[1:]])
             kw = [["k", A.Flat(list(reversed(ops)), [draw(st.sampled_from(["*", "+", "-"])) for _ in ops[1:]])]] if draw(st.booleans()) else []
